@@ -4,6 +4,8 @@ package n
 import (
 	"math"
 	"sort"
+
+	"github.com/unixpickle/model3d/model2d"
 )
 
 type polyline struct {
@@ -204,4 +206,20 @@ func HalvesGood(cum []float64, items []int) ([]int, []int) {
 		k = 1
 	}
 	return items[:k], items[k:]
+}
+
+// want:POWABS the base can be negative.
+func PNormRaw(v model2d.Coord, p float64) float64 {
+	return math.Pow(math.Pow(v.X, p)+math.Pow(v.Y, p), 1/p)
+}
+
+// clean:POWABS
+func PNormAbs(v model2d.Coord, p float64) float64 {
+	abs := v.Abs()
+	return math.Pow(math.Pow(abs.X, p)+math.Pow(abs.Y, p), 1/p)
+}
+
+// silent:POWABS a constant integer exponent.
+func SumOfCubes(v model2d.Coord) float64 {
+	return math.Pow(v.X, 3) + math.Pow(v.Y, 3)
 }
